@@ -19,7 +19,7 @@ PROPERTY = 'C05'
 RULE = ('Dense-time past fragment (once/historically/since bounded and unbounded, Boolean, arithmetic, predicates) and a pastified lane '
         '(bounded eventually/always, pastify() first) on grid signals of up to 6 samples per variable; a schedule cuts the input into '
         'successive update() calls: all at once, one sample per update, random common cut instants, and per-variable independent cuts '
-        '(one operand runs ahead); lanes for unbounded operators under arbitrary schedules, bounded / pastified operators in one update and in several updates; for one-variable cases with <= 5 samples ALL 2^(n-1) schedules are enumerated for a fixed family of 12 formulas; lane skewed: 34-70 samples per variable, one variable delivered completely (or in one update) before the others, so that two-operand nodes keep a long backlog. Oracle: (i) every '
+        '(one operand runs ahead); lanes for unbounded operators under arbitrary schedules, bounded / pastified operators in one update and in several updates; for one-variable cases with <= 5 samples ALL 2^(n-1) schedules are enumerated for a fixed family of 12 formulas; lane skewed: 34-70 samples per variable, one variable delivered completely (or in one update) before the others, so that two-operand nodes keep a long backlog; in the per-variable schedules a variable without new samples is either listed with an empty list or (after its first mention) left out of the call. Oracle: (i) every '
         'returned element is a [time, value] pair with finite time and the concatenation has non-decreasing time stamps; (ii) read as a '
         'step function it equals the grid reference R-ct (shifted by the horizon after pastify) at every cell start / midpoint it '
         'covers; (iii) two schedules of the same case agree wherever both cover. Non-trivial = >= 2 update calls, non-empty output and '
@@ -29,6 +29,7 @@ ASSUMPTIONS = [
     'conventions of C04 for the reference (non-strict since, last value held, signals start together at 0)',
     'the output covers the interval between its first and last time stamp',
     'a disagreement in which rtamt offline also differs from the reference is attributed to C04',
+    'a variable may be left out of an update() call only after it was listed in an earlier call (the first call lists every variable, possibly with an empty list)',
 ]
 
 
@@ -65,12 +66,17 @@ def split_independent(sig_t, masks):
     return out
 
 
-def run_schedule(text, feed, batches, pastify):
+def run_schedule(text, feed, batches, pastify, omit_empty=False):
     try:
         spec = build('ct_on', text, feed, pastify=pastify)
         outs = []
+        listed = set()
         for b in batches:
-            outs.append(spec.update(*[[v, [list(s) for s in b[v]]] for v in feed]))
+            # a variable without new samples is either listed with an empty list or - once it has been listed in an
+            # earlier call - left out of the call (before its first mention the monitor holds no sample list for it)
+            args = [[v, [list(s) for s in b[v]]] for v in feed if b[v] or not omit_empty or v not in listed]
+            listed.update(a[0] for a in args)
+            outs.append(spec.update(*args))
         return ('ok', outs)
     except RecursionError:
         raise
@@ -132,6 +138,7 @@ def cases(draw, tier, pastified=False, bounded=True, chunked=True):
         c['cuts'] = ts
     else:
         c['masks'] = {v: draw(st.lists(st.integers(0, 1), min_size=nmax, max_size=nmax)) for v in c['vars']}
+        c['omit_empty'] = draw(st.booleans())
     return c
 
 
@@ -177,10 +184,13 @@ def check(case):
     sig_t = to_time(sig, q)
     batches = batches_of(case, sig_t, q)
     whole = [sig_t]
-    o = run_schedule(text, feed, batches, pastified)
+    omit = bool(case.get('omit_empty'))
+    if omit:
+        labels.append('variables-without-samples-left-out')
+    o = run_schedule(text, feed, batches, pastified, omit)
     o1 = run_schedule(text, feed, whole, pastified)
-    desc = 'spec: %s%s\nsignals: %s\nschedule (%s): %s' % (text, '  [pastified, horizon %s]' % float(h * q) if pastified else '', sig_t,
-                                                         case.get('schedule'), batches)
+    desc = 'spec: %s%s\nsignals: %s\nschedule (%s%s): %s' % (text, '  [pastified, horizon %s]' % float(h * q) if pastified else '', sig_t,
+                                                           case.get('schedule'), ', a variable without new samples is left out of the call' if omit else '', batches)
     if o1[0] != 'ok':
         return DISCARD('single-update-raises(C17):' + o1[1], labels)
     if o[0] != 'ok':
@@ -320,6 +330,7 @@ def long_cases(tier):
         else:
             nmax = max(len(s) for s in c['signals'].values())
             c['masks'] = {v: draw(st2.lists(st2.integers(0, 1), min_size=nmax, max_size=nmax)) for v in c['vars']}
+            c['omit_empty'] = draw(st2.booleans())
         return c
     return mk()
 
@@ -363,6 +374,7 @@ def skewed_cases(tier):
             c['schedule'] = 'independent'
             ahead = draw(st2.sampled_from(vs))
             c['masks'] = {v: ([0] * 70 if v == ahead else draw(st2.lists(st2.sampled_from([0, 0, 0, 0, 0, 1]), min_size=70, max_size=70))) for v in vs}
+        c['omit_empty'] = draw(st2.booleans())
         return c
     return mk()
 
